@@ -436,6 +436,75 @@ def list_term_roundtrip(run, cls, k):
     run.add(static(f"{fq}/round_trip_paths", n_ok > 0, f"{n_ok} print/parse path combination(s) analysed for a list of length {k}", fn=fq, level="B"))
 
 
+# ------------------------------------------------------------------------------------------------ line-level schema: exporter keys <-> importer keys
+def verify_fll_schema(run):
+    """every `key: value` line the exporter writes for a component is read back by the importer's branch for that key into the SAME field with the
+    matching converter (boolean / to_float / range / tnorm / snorm / activation / defuzzifier / term / rule) - read off both ASTs"""
+    src = run.src
+
+    def exported(fn_names):
+        out = {}
+        for q in fn_names:
+            fn = src.func("exporter", f"FllExporter.{q}")
+            run.under_contract("exporter", f"FllExporter.{q}", fn)
+            for n in ast.walk(fn):
+                if isinstance(n, ast.Call) and ast.unparse(n.func) == "self.format" and n.args and isinstance(n.args[0], ast.Constant) and len(n.args) > 1:
+                    attrs = sorted({x.attr for x in ast.walk(n.args[1]) if isinstance(x, ast.Attribute) and isinstance(x.value, ast.Name) and x.value.id not in ("self", "Op")})
+                    conv = [ast.unparse(c.func).replace("self.", "") for c in ast.walk(n.args[1]) if isinstance(c, ast.Call) and ast.unparse(c.func).startswith("self.")]
+                    out[n.args[0].value] = (tuple(attrs), conv[0] if conv else None)
+            for n in ast.walk(fn):      # lists of terms / rules are written through self.term / self.rule
+                if isinstance(n, ast.ListComp) and isinstance(n.elt, ast.BinOp) and isinstance(n.elt.right, ast.Call) and ast.unparse(n.elt.right.func) in ("self.term", "self.rule"):
+                    k = ast.unparse(n.elt.right.func).replace("self.", "")
+                    out[k] = ((ast.unparse(n.generators[0].iter).split(".")[-1],), k)
+        return out
+
+    def imported(q):
+        fn = src.func("importer", f"FllImporter.{q}")
+        run.under_contract("importer", f"FllImporter.{q}", fn)
+        out = {}
+        for n in ast.walk(fn):
+            if isinstance(n, ast.If) and isinstance(n.test, ast.Compare) and ast.unparse(n.test.left) == "key" and isinstance(n.test.comparators[0], ast.Constant):
+                key = n.test.comparators[0].value
+                attrs, conv = [], None
+                for st in n.body:
+                    for x in ast.walk(st):
+                        if isinstance(x, ast.Attribute) and isinstance(x.ctx, ast.Store):
+                            attrs.append(x.attr)
+                        if isinstance(x, ast.Call) and isinstance(x.func, ast.Attribute) and x.func.attr == "append" and isinstance(x.func.value, ast.Attribute):
+                            attrs.append(x.func.value.attr)
+                        if isinstance(x, ast.Call) and (ast.unparse(x.func).startswith("self.") or ast.unparse(x.func) == "to_float"):
+                            conv = conv or ast.unparse(x.func).replace("self.", "")
+                out[key] = (tuple(sorted(set(attrs))), conv)
+        return out
+    # how a field is converted back: by the kind of the field
+    CONV = {"enabled": "boolean", "lock_range": "boolean", "lock_previous": "boolean", "default_value": "to_float", "aggregation": "snorm", "disjunction": "snorm", "conjunction": "tnorm", "implication": "tnorm",
+            "activation": "activation", "defuzzifier": "defuzzifier", "terms": "term", "rules": "rule", "description": None, "name": None}
+    comps = {"InputVariable": (["variable"], "input_variable"), "OutputVariable": (["variable", "output_variable"], "output_variable"), "RuleBlock": (["rule_block"], "rule_block")}
+    rs = src.func("variable", "Variable.range", "setter")
+    range_ok = ast.unparse(rs.body[-1]) == "self.minimum, self.maximum = min_max"
+    run.add(static("variable.Variable.range/setter_assigns_minimum_and_maximum", range_ok, f"`{ast.unparse(rs.body[-1])}`", fn="variable.Variable.range", meta=RP("fll-structure")))
+    for comp, (exp_fns, imp_fn) in comps.items():
+        ex_map, im_map = exported(exp_fns), imported(imp_fn)
+        ex_map.pop("term", None) if comp == "RuleBlock" else None
+        problems = []
+        for key, (attrs, conv) in ex_map.items():
+            if key not in im_map:
+                problems.append(f"`{key}:` is written but the importer has no branch for it"); continue
+            iattrs, iconv = im_map[key]
+            want_attrs = ("range",) if attrs == ("maximum", "minimum") else attrs
+            if tuple(iattrs) != tuple(want_attrs):
+                problems.append(f"`{key}:` is written from {attrs} but read into {iattrs}")
+            want_conv = "range" if key == "range" else CONV.get(attrs[0]) if attrs else None
+            if want_conv != iconv:
+                problems.append(f"`{key}:` ({attrs}) is read back with {iconv}, expected {want_conv}")
+        extra = [k for k in im_map if k not in ex_map and k != comp]
+        if extra:
+            problems.append(f"the importer accepts keys the exporter never writes: {extra}")
+        run.add(static(f"exporter.FllExporter+importer.FllImporter/{comp}.keys_and_fields_agree", not problems and len(ex_map) >= 4,
+                       "; ".join(problems) if problems else f"{len(ex_map)} keys: " + ", ".join(f"{k} <- {','.join(a)}" for k, (a, c) in sorted(ex_map.items())),
+                       fn=f"importer.FllImporter.{imp_fn}", meta=RP("fll-structure")))
+
+
 def build(run):
     run.assume("A-FMT", "A-STR", "A-SET", "A-PY", "A-MSG", "A-NP")
     src = run.src
@@ -464,6 +533,10 @@ def build(run):
         except Unsupported as ex_:
             run.add(undecided(f"defuzzifier.{c}/subset", f"outside the verified subset: {ex_}", fn=f"defuzzifier.{c}", meta=RP(f"fll-component:{c}")))
     verify_rule_weight(run)
+    try:
+        verify_fll_schema(run)
+    except NotFound as ex_:
+        run.add(static("exporter.FllExporter+importer.FllImporter/schema.exists", False, str(ex_)))
     # Linear / Discrete: parameter lists of bounded length (level B: complete for each length, the bound is on the length)
     for cls, ks in (("Linear", (0, 1, 3)), ("Discrete", (1, 2, 3))):
         for k in ks:
